@@ -17,6 +17,9 @@ EXTENDS MCAPFormat
 
 B(id, n) == [id |-> id, len |-> n]
 
+(* TRUE only in the witness configuration of a repaired defect (overridden there) *)
+OldChunkIndex == FALSE
+
 WithLen(r) == [r EXCEPT !.len = 9 + ContentLen(r)]
 Base(k, pos) == [k |-> k, pos |-> pos, len |-> 0, pad |-> 0, ok |-> TRUE]
 
@@ -88,15 +91,6 @@ AddEntry(midx, ch, e) == IF \E i \in DOMAIN midx : midx[i].ch = ch
                          THEN [i \in DOMAIN midx |-> IF midx[i].ch = ch THEN [midx[i] EXCEPT !.entries = Append(@, e)] ELSE midx[i]]
                          ELSE Append(midx, [ch |-> ch, entries |-> <<e>>])
 
-(* the message indexes of a flush, in the order of channel registration *)
-RunOf(w, pos0) ==
-  LET chans == Sel(w.channels, LAMBDA c : \E i \in DOMAIN w.midx : w.midx[i].ch = c.id /\ w.midx[i].entries # <<>>)
-      ent(ch) == w.midx[CHOOSE i \in DOMAIN w.midx : w.midx[i].ch = ch].entries
-      RECURSIVE build(_, _, _)
-      build(i, pos, acc) == IF i > Len(chans) THEN acc
-                            ELSE LET r == MkMsgIndex(pos, chans[i].id, ent(chans[i].id)) IN build(i + 1, pos + r.len, Append(acc, r))
-  IN build(1, pos0, <<>>)
-
 (* second writer of the statistics time range: WriteChunkWithIndexes (after the fix of F1/F2) *)
 ChunkRange(st, cstart, cend, hasMsgs) ==
   IF ~hasMsgs THEN st
@@ -104,23 +98,68 @@ ChunkRange(st, cstart, cend, hasMsgs) ==
                   !.end = IF cend > @ THEN cend ELSE @,
                   !.rangeSet = TRUE]
 
+(* WriteChunkWithIndexes as coded: the chunk record and the non-empty message indexes the caller handed over (none
+   when message indexing is skipped), the chunk index bookkeeping, the chunk count and the second writer of the
+   statistics time range.  `c` = [start, end, usize, inner, comp, csize, crcz]; `given` = Seq of [ch, entries] in the
+   caller's order.  A chunk that declares an uncompressed size of zero is dropped without a trace. *)
+BuildRun(given, pos0) ==
+  LET RECURSIVE build(_, _, _)
+      build(i, pos, acc) == IF i > Len(given) THEN acc
+                            ELSE LET r == MkMsgIndex(pos, given[i].ch, given[i].entries) IN build(i + 1, pos + r.len, Append(acc, r))
+  IN build(1, pos0, <<>>)
+
+WriteChunkWithIndexes(w, c, given0) ==
+  IF c.usize = 0 THEN w
+  ELSE LET chunk == MkChunk(w.pos, c.start, c.end, c.usize, c.inner, c.comp, CompLen(c.comp), c.csize, c.crcz)
+           given == Sel(given0, LAMBDA x : x.entries # <<>>)
+           run == IF w.cfg.skipMsgIdx THEN <<>> ELSE BuildRun(given, w.pos + chunk.len)
+           milen == Sum([i \in DOMAIN run |-> run[i].len])
+           cix == [start |-> c.start, end |-> c.end, cstart |-> w.pos, clen |-> chunk.len,
+                   offs |-> [i \in DOMAIN run |-> [ch |-> run[i].ch, off |-> run[i].pos]], milen |-> milen,
+                   comp |-> c.comp, complen |-> CompLen(c.comp), csize |-> c.csize, usize |-> c.usize]
+           hasMsgs == c.start # 0 \/ c.end # 0 \/ given # <<>>
+       IN [w EXCEPT !.out = @ \o <<chunk>> \o run, !.pos = @ + chunk.len + milen, !.nw = @ + 2 + 2 * Len(run),
+                    !.chunkIdx = Append(@, cix),
+                    !.stats = [ChunkRange(@, c.start, c.end, hasMsgs) EXCEPT !.chunks = @ + 1]]
+
+(* the message indexes flushActiveChunk hands over: none when indexing is skipped, else the non-empty ones in the
+   order of channel registration *)
+GivenOf(w) ==
+  IF w.cfg.skipMsgIdx THEN <<>>
+  ELSE LET chans == Sel(w.channels, LAMBDA c : \E i \in DOMAIN w.midx : w.midx[i].ch = c.id /\ w.midx[i].entries # <<>>)
+       IN [i \in DOMAIN chans |-> [ch |-> chans[i].id, entries |-> w.midx[CHOOSE j \in DOMAIN w.midx : w.midx[j].ch = chans[i].id].entries]]
+
 (* csize: compressed size of the chunk payload (equal to the uncompressed size without compression) *)
 Flush(w, csize) ==
   IF w.cpos = 0 THEN w
   ELSE LET st0 == IF w.curCount # 0 THEN w.curStart ELSE 0
            en0 == IF w.curCount # 0 THEN w.curEnd ELSE 0
-           chunk == MkChunk(w.pos, st0, en0, w.cpos, w.cbuf, w.cfg.comp, CompLen(w.cfg.comp), csize, ~w.cfg.crc)
-           run == IF w.cfg.skipMsgIdx THEN <<>> ELSE RunOf(w, w.pos + chunk.len)
-           milen == Sum([i \in DOMAIN run |-> run[i].len])
-           cix == [start |-> st0, end |-> en0, cstart |-> w.pos, clen |-> chunk.len,
-                   offs |-> [i \in DOMAIN run |-> [ch |-> run[i].ch, off |-> run[i].pos]], milen |-> milen,
-                   comp |-> w.cfg.comp, complen |-> CompLen(w.cfg.comp), csize |-> csize, usize |-> w.cpos]
-           hasMsgs == st0 # 0 \/ en0 # 0 \/ run # <<>>
-       IN [w EXCEPT !.out = @ \o <<chunk>> \o run, !.pos = @ + chunk.len + milen, !.nw = @ + 2 + 2 * Len(run),
-                    !.chunkIdx = Append(@, cix),
-                    !.stats = [ChunkRange(@, st0, en0, hasMsgs) EXCEPT !.chunks = @ + 1],
+           c == [start |-> st0, end |-> en0, usize |-> w.cpos, inner |-> w.cbuf, comp |-> w.cfg.comp, csize |-> csize, crcz |-> ~w.cfg.crc]
+       IN [WriteChunkWithIndexes(w, c, GivenOf(w)) EXCEPT
                     !.cbuf = <<>>, !.cpos = 0, !.midx = [i \in DOMAIN @ |-> [@[i] EXCEPT !.entries = <<>>]],
                     !.curStart = w.tmax, !.curEnd = 0, !.curCount = 0]
+
+(* ---- the chunk a caller assembles itself (remuxing): items are Schema / Channel / Message values; the caller's
+   part of the contract is modelled too: true times, exact per-channel indexes, and the message counts, which
+   WriteChunkWithIndexes does not maintain *)
+InnerOf(items) ==
+  LET mk(pos, it) == CASE it.k = "Schema" -> MkSchema(pos, it) [] it.k = "Channel" -> MkChannel(pos, it) [] OTHER -> MkMessage(pos, it)
+      step(acc, it) == LET r == mk(acc.pos, it) IN [pos |-> acc.pos + r.len, recs |-> Append(acc.recs, r)]
+  IN FoldLeft(step, [pos |-> 0, recs |-> <<>>], items).recs
+ExtChunk(items, comp, csize, crcz) ==
+  LET inner == InnerOf(items)
+      ms == Sel(inner, LAMBDA r : r.k = "Message")
+      ts == {m.log : m \in Range(ms)} IN
+  [start |-> IF ts = {} THEN 0 ELSE MinOf(ts), end |-> IF ts = {} THEN 0 ELSE MaxOf(ts),
+   usize |-> Sum([i \in DOMAIN inner |-> inner[i].len]), inner |-> inner, comp |-> comp, csize |-> csize, crcz |-> crcz]
+(* exact message indexes of an assembled chunk, channels in order of first appearance *)
+ExactIdx(inner) ==
+  LET ms == Sel(inner, LAMBDA r : r.k = "Message")
+      firsts == Sel([i \in DOMAIN ms |-> [m |-> ms[i], first |-> ~\E j \in 1 .. i - 1 : ms[j].ch = ms[i].ch]], LAMBDA x : x.first)
+  IN [i \in DOMAIN firsts |-> [ch |-> firsts[i].m.ch,
+        entries |-> LET mine == Sel(ms, LAMBDA m : m.ch = firsts[i].m.ch) IN [y \in DOMAIN mine |-> [t |-> mine[y].log, off |-> mine[y].pos]]]]
+CallerCounts(w, items) ==
+  FoldLeft(LAMBDA acc, it : IF it.k = "Message" THEN [acc EXCEPT !.stats.msgs = @ + 1, !.stats.per = Bump(@, it.ch)] ELSE acc, w, items)
 
 (* first writer of the time range: the tail of WriteMessage *)
 MsgRange(st, t) ==
@@ -166,8 +205,20 @@ StatsRecOf(w) ==
            IN [i \in DOMAIN cs |-> [ch |-> cs[i].id, n |-> Lookup(w.stats.per, cs[i].id)]]]
 
 (* chunk index records list their offsets in channel registration order *)
-CixRec(w, x) == [x EXCEPT !.offs = LET cs == Sel(w.channels, LAMBDA c : \E i \in DOMAIN x.offs : x.offs[i].ch = c.id)
-                                   IN [i \in DOMAIN cs |-> [ch |-> cs[i].id, off |-> x.offs[CHOOSE j \in DOMAIN x.offs : x.offs[j].ch = cs[i].id].off]]]
+CixRec(w, x) ==
+  LET cs == Sel(w.channels, LAMBDA c : \E i \in DOMAIN x.offs : x.offs[i].ch = c.id)
+      offOf(ch) == x.offs[CHOOSE j \in DOMAIN x.offs : x.offs[j].ch = ch].off
+      \* offsets of channels the writer was never told about (possible only for chunks the caller assembled): after the
+      \* registered ones, in ascending channel id order (fix of the defect below)
+      rest == SetToSortSeq({x.offs[i].ch : i \in DOMAIN x.offs} \ {w.channels[i].id : i \in DOMAIN w.channels}, <)
+  IN [x EXCEPT !.offs = [i \in DOMAIN cs |-> [ch |-> cs[i].id, off |-> offOf(cs[i].id)]] \o [i \in DOMAIN rest |-> [ch |-> rest[i], off |-> offOf(rest[i])]]]
+MkChunkIndexW(w, pos, x) == MkChunkIndex(pos, CixRec(w, x))
+(* as coded before the fix, the record declared room for every offset of the chunk index but wrote only those of
+   registered channels: with an offset of an unregistered channel the record was malformed (witness: Writer_asm_old.cfg) *)
+CixAllRegistered(w, x) == \A i \in DOMAIN x.offs : HasId(w.channels, x.offs[i].ch)
+CixRecOld(w, x) == [x EXCEPT !.offs = LET cs == Sel(w.channels, LAMBDA c : \E i \in DOMAIN x.offs : x.offs[i].ch = c.id)
+                                      IN [i \in DOMAIN cs |-> [ch |-> cs[i].id, off |-> x.offs[CHOOSE j \in DOMAIN x.offs : x.offs[j].ch = cs[i].id].off]]]
+MkChunkIndexWOld(w, pos, x) == [MkChunkIndex(pos, CixRecOld(w, x)) EXCEPT !.ok = CixAllRegistered(w, x)]
 
 Close(w, csize) ==
   LET w0 == IF w.cfg.chunked THEN Flush(w, csize) ELSE w
@@ -177,7 +228,7 @@ Close(w, csize) ==
       g1 == Group([w |-> w2, offs |-> <<>>], "Schema", ~w.cfg.skipRepSchemas, w2.schemas, MkSchema)
       g2 == Group(g1, "Channel", ~w.cfg.skipRepChannels, g1.w.channels, MkChannel)
       g3 == Group(g2, "Statistics", ~w.cfg.skipStats, <<StatsRecOf(g2.w)>>, MkStatistics)
-      g4 == Group(g3, "ChunkIndex", ~w.cfg.skipChunkIdx, [i \in DOMAIN g3.w.chunkIdx |-> CixRec(g3.w, g3.w.chunkIdx[i])], MkChunkIndex)
+      g4 == Group(g3, "ChunkIndex", ~w.cfg.skipChunkIdx, g3.w.chunkIdx, LAMBDA pos, x : IF OldChunkIndex THEN MkChunkIndexWOld(g3.w, pos, x) ELSE MkChunkIndexW(g3.w, pos, x))
       g5 == Group(g4, "AttachmentIndex", ~w.cfg.skipAttIdx, g4.w.attIdx, MkAttIndex)
       g6 == Group(g5, "MetadataIndex", ~w.cfg.skipMdIdx, g5.w.mdIdx, MkMdIndex)
       ss == IF g6.offs = <<>> THEN 0 ELSE sumStart
